@@ -9,7 +9,7 @@ for m in "$@"; do
     C16*|C20*) t="tests/test_utils.py tests/test_training.py -k reinforce";;
     C17*|C19*) t="tests/test_utils.py tests/test_tasks.py tests/test_envs.py";;
   esac
-  if [[ $m == *-5* ]]; then src=/tmp/wt/m5-$p/_seeded5/${m: -1}; elif [[ $m == *-4* ]]; then src=/tmp/wt/m4-$p/_seeded4/${m: -1}; elif [[ $m == *-3* ]]; then src=/tmp/wt/m3-$p/_seeded3/${m: -1}; elif [[ $m == *-2* ]]; then src=/tmp/wt/m-$p/_seeded2/${m: -1}; else src=/tmp/wt/m-$p/_seeded/${m: -1}; fi
+  if [[ $m == *-6* ]]; then src=/tmp/wt/m6-$p/_seeded6/${m: -1}; elif [[ $m == *-5* ]]; then src=/tmp/wt/m5-$p/_seeded5/${m: -1}; elif [[ $m == *-4* ]]; then src=/tmp/wt/m4-$p/_seeded4/${m: -1}; elif [[ $m == *-3* ]]; then src=/tmp/wt/m3-$p/_seeded3/${m: -1}; elif [[ $m == *-2* ]]; then src=/tmp/wt/m-$p/_seeded2/${m: -1}; else src=/tmp/wt/m-$p/_seeded/${m: -1}; fi
   [ -f $src/patch.diff ] || src=/verif/seeded/$m
   /venv/bin/python /verif/seeded_eval.py verify $src $m "$t"
 done
